@@ -6,12 +6,13 @@ int main(int argc, char** argv) {
   RSModel m;
   auto x1 = m.Emplace(CstType::base);
   rslang::Interpreter it{ m.Core().RSLang(), m.Core().RSLang().ASTContext(), m.Calculations().Context() };
-  for (const char* e : {"X1", "X2:==", "\xE2\x88\x85", "S1::=X1", "[\xCE\xB1\xE2\x88\x88X1] \xCE\xB1", "F1:==[\xCE\xB1\xE2\x88\x88X1] \xCE\xB1", "R1"}) {
+  for (int i = 1; i < argc; ++i) { const char* e = argv[i];
+
     try {
       auto v = it.Evaluate(e);
-      std::cout << "`" << e << "` value=" << v.has_value() << " errors=" << it.Errors().All().size();
+      std::cout << "`" << e << "` value=" << v.has_value() << (v.has_value() && std::holds_alternative<bool>(v.value()) ? (std::get<bool>(v.value()) ? " TRUE" : " FALSE") : "") << " errors=" << it.Errors().All().size();
       for (auto& er : it.Errors().All()) std::cout << " [" << std::hex << er.eid << std::dec << "]";
-      std::cout << "\n";
+      std::cout << std::endl;
     } catch (const std::exception& ex) { std::cout << "`" << e << "` THROWS " << ex.what() << "\n"; }
   }
 }
